@@ -269,7 +269,7 @@ theorem C11_info_safe (f : Fmt) (dev : Dev) (bytes : List UInt8) (st : Settings)
 example : safe (decode .tga .stream [] { entry := .info, dst := .none, x0 := 0, y0 := 0, dw := 0, dh := 0, vw := 0, vh := 0 }) = true :=
   C11_info_safe .tga .stream [] _ rfl
 
-/-! ## the FULL statement for TARGA: every device, every byte string, every entry point, every setting
+/-! ## the FULL statement for TARGA and PNM: every device, every byte string, every entry point, every setting
 
   `ConvOk f st` only restricts the *converting* entry point to the destination types whose colour conversion the model
   contains (TARGA / BMP: rgb8, rgba8; PNM: rgb8); for read_image / read_view / read_image_info / the scanline reader every
@@ -303,6 +303,14 @@ theorem C11_safe_targa (dev : Dev) (bytes : List UInt8) (st : Settings) (hconv :
     safe (decode .tga dev bytes st) = true := by
   unfold decode runRaw
   exact safe_of_tr_nf rfl (tr_tga_run st hconv _) (nf_tga_run st _)
+
+/-- PNM (P1-P6: text rows, binary rows, bit rows, comments in the header, sub-rectangles, every entry point, file and
+    stream devices): for EVERY byte string the outcome is an image or a C++ exception -- never undefined behaviour, never a
+    hang, never data made up. -/
+theorem C11_safe_pnm (dev : Dev) (bytes : List UInt8) (st : Settings) (hconv : ConvOk .pnm st) :
+    safe (decode .pnm dev bytes st) = true := by
+  unfold decode runRaw
+  exact safe_of_tr_nf rfl (tr_pnm_run st hconv _) (nf_pnm_run st _)
 
 example : safe (decode .tga .sstream [0, 0, 10] { entry := .view, dst := .rgba8, x0 := 3, y0 := -1, dw := 7, dh := 0, vw := 2, vh := 2 }) = true :=
   C11_safe_targa _ _ _ (by intro h; cases h)
